@@ -678,7 +678,7 @@ def run(tier, seed):
                     "task_types/run.py::RunExperiment.get_output_path", scope, True,
                     "distinct (DAG, git, HEAD, version list); non-trivial = some version is selected",
                     wall_sel),
-        argv.result("C05.git_argv", ["C05", "C17", "C06"], "utils/git.py::Git.{is_used,current_commit,rev_parse,is_ancestor,get_distance}",
+        argv.result("C05.git_argv", ["C05", "C17", "C06", "C02"], "utils/git.py::Git.{is_used,current_commit,rev_parse,is_ancestor,get_distance}",
                     "2 project roots x 5x5 commit symbols x git exit codes {0,1,128} (is_ancestor) / "
                     "stdout {'0','3',' 12 '} (get_distance); subprocess.run recorded", True,
                     "distinct (function, root, two symbols, git answer); non-trivial = the two symbols differ",
